@@ -7,7 +7,7 @@ from .interp import Coro, CtxMgr
 from . import builtins_ as B
 
 
-ENV_FIELDS = ("supply", "demand", "utilisation", "allocation")
+ENV_FIELDS = ("supply", "demand", "utilisation", "allocation", "_must_shutdown", "_started")
 
 
 def trio_sleep(I, args, kwargs):
